@@ -35,6 +35,10 @@ func c04BoundarySpecs() []c04bspec {
 	for k := range c04AppendKinds {
 		out = append(out, c04bspec{kind: "append", operand: k})
 	}
+	// growth grid: element type x full destination of capacity 0..5 x 1, 2, 3, 5 appended values x {element-wise, spread}
+	for et := 0; et < 3; et++ {
+		out = append(out, c04bspec{kind: "growth", operand: et})
+	}
 	return out
 }
 
@@ -74,7 +78,63 @@ func c04Boundary(id int, seed uint64, k int) *c04hist {
 	ss0 := c04SIdx(c04Load(c04Var(3, c04TLL)), c04IntLit(0))  // ss[0]: keeps the whole backing array visible
 	lit := func(n int64) *c04ex { return c04IntLit(n) }
 	dump()
-	if spec.kind == "slice" {
+	if spec.kind == "growth" {
+		// len/cap growth: one growslice for the total number of appended values, whatever the form
+		zS := func(n int64) *c04ex {
+			z := g.zeroEx(c04TS)
+			z.L[0] = lit(n)
+			return z
+		}
+		var dstV *c04ex
+		var st *c04ty
+		mkElem := func(n int64) *c04ex { return lit(n) }
+		switch spec.operand {
+		case 0:
+			dstV, st = si, c04TLI
+		case 1:
+			dstV, st, mkElem = c04Var(2, c04TLS), c04TLS, zS
+		default:
+			dstV, st = c04Var(13, c04TLE), c04TLE
+			mkElem = func(n int64) *c04ex { return c04Box(lit(n)) }
+		}
+		elems := func(from, n int64) []*c04ex {
+			var out []*c04ex
+			for i := int64(0); i < n; i++ {
+				out = append(out, mkElem(from+i))
+			}
+			return out
+		}
+		for c := int64(0); c <= 5; c++ {
+			for _, k := range []int64{1, 2, 3, 5} {
+				for form := 0; form < 2; form++ {
+					// a full destination (len == cap == c), and a source with k values for the spread form
+					try(c04Asg(dstV, &c04rhs{K: "slicelit", T: st, L: elems(10, c)}))
+					var rhs *c04rhs
+					if form == 0 {
+						rhs = &c04rhs{K: "append", T: st, E: c04Load(dstV), L: elems(40, k)}
+					} else {
+						if st != c04TLI {
+							continue
+						}
+						try(c04Asg(aL, &c04rhs{K: "slicelit", T: st, L: elems(40, k)}))
+						rhs = &c04rhs{K: "appendslice", T: st, E: c04Load(dstV), E2: c04Load(aL)}
+					}
+					if st == c04TLI {
+						if !try(c04Asg(sL, rhs)) {
+							continue
+						}
+						// two further appends from the result: independent unless spare capacity is shared
+						try(c04Asg(aL, &c04rhs{K: "append", T: st, E: c04Load(sL), L: c04Ints(71)}))
+						try(c04Asg(c04Fld(c04Idx(c04Var(0, c04TA3S), c04IntLit(1)), 2), &c04rhs{K: "append", T: st, E: c04Load(sL), L: c04Ints(72)}))
+					} else if !try(c04Asg(dstV, rhs)) {
+						continue
+					}
+					g.stats[fmt.Sprintf("cell:growth:%d:%d:%d:%d", spec.operand, c, k, form)]++
+					dump()
+				}
+			}
+		}
+	} else if spec.kind == "slice" {
 		// (re-)initialise the operand; returns the sliceable base expression and its len, cap
 		setup := func() (*c04ex, int, int) {
 			try(c04Asg(ai, c04Pure(c04Lit(c04TA4, c04Ints(1, 2, 3, 4)))))
